@@ -1,4 +1,4 @@
-// Witness w_streams: write<N> / read<N> for every field width N = 1..32 on the largest stream (255 bits) (C13.d).
+// Witness w_streams: write<N> / read<N> for every field width N = 1..32 on the largest stream (255 bits) and on small streams (C13.d).
 #include "w_common.hpp"
 
 using namespace ffsm2;
@@ -21,4 +21,27 @@ struct UseWidth<0> {
 	static void go() {}
 };
 
-void w_streams_use() { UseWidth<32>::go(); }
+// ... and on small streams, every width that fits: capacities 1..9 are the serial-buffer sizes machines of 1..255 states have; 8, 16, 64
+// are exact numbers of bytes (a field may end on the very last bit of the buffer)
+template <unsigned CAP, Short N>
+struct UseCap {
+	static void go() {
+		StreamBufferT<CAP> buffer;
+		BitWriteStreamT<CAP> w{buffer};
+		w.template write<N>(0);
+		BitReadStreamT<CAP> r{buffer};
+		(void) r.template read<N>();
+		UseCap<CAP, N - 1>::go();
+	}
+};
+
+template <unsigned CAP>
+struct UseCap<CAP, 0> {
+	static void go() {}
+};
+
+void w_streams_use() {
+	UseWidth<32>::go();
+	UseCap<1, 1>::go(); UseCap<2, 2>::go(); UseCap<3, 3>::go(); UseCap<4, 4>::go(); UseCap<5, 5>::go(); UseCap<6, 6>::go(); UseCap<7, 7>::go();
+	UseCap<8, 8>::go(); UseCap<9, 9>::go(); UseCap<16, 16>::go(); UseCap<64, 32>::go();
+}
